@@ -198,8 +198,14 @@ def oracle(case, obs):
     for r, o in zip(case["reqs"], obs["reqs"]):
         if o["wire"] != "ok":
             continue
-        names = r["names"]
+        # the name(s) as they reached the handler; the rest of the request's shape (surplus / keyword arguments) must not matter
+        names = o["eff"]["names"]
         kind = r["kind"]
+        shape_note = "".join([" +%d surplus args" % len(o["eff"]["surplus"]) if o["eff"]["surplus"] else "",
+                              " +kwargs %s" % [k for k, _ in o["eff"]["kwargs"]] if o["eff"]["kwargs"] else "",
+                              " (argument missing)" if o["eff"]["missing"] else ""])
+        # surplus / keyword arguments of an attribute request may be ignored or may make it an error — never widen access
+        may_error = kind in ("getattr", "setattr") and bool(o["eff"]["surplus"] or o["eff"]["kwargs"])
         # expected behaviour, by the property
         exp_log, exp_ok = [], True
         loose_tail = []      # after a batch member that called a helper object (open finding) both continuations are accepted
@@ -214,7 +220,7 @@ def oracle(case, obs):
                     break
                 exp_log.append([sv[0], sv[1]])
         else:
-            sv = servable(shape, kind, names[0])
+            sv = None if o["eff"]["missing"] else servable(shape, kind, names[0])
             if sv is None:
                 exp_ok = False
             else:
@@ -258,7 +264,7 @@ def oracle(case, obs):
             elif m["name"] in names and oracle_private(m["name"]):
                 bad.append(("private-member-ran", "request %s %r ran the private member %r" % (kind, names, m["name"]), sub([r])))
             elif m["name"] in names and not explicitly_exposed(shape, m):
-                bad.append(("unexposed-member-ran", "request %s %r ran the unexposed member %r (%s)" % (kind, names, m["name"], m["kind"]), sub([r])))
+                bad.append(("unexposed-member-ran", "request %s %r%s ran the unexposed member %r (%s)" % (kind, names, shape_note, m["name"], m["kind"]), sub([r])))
             elif m["name"] in names and e in exp_log:
                 bad.append(("member-ran-twice", "request %s %r ran member %r more than once" % (kind, names, m["name"]), sub([r])))
             else:
@@ -278,16 +284,16 @@ def oracle(case, obs):
                 bad.append(("no-reply", "request %s %r got no reply" % (kind, names), sub([r])))
             elif not exp_ok and o["reply"] == "result":
                 bad.append(("refusable-request-answered", "request %s %r must be refused but got a normal result" % (kind, names), sub([r])))
-            elif exp_ok and o["reply"] == "error":
+            elif exp_ok and o["reply"] == "error" and not may_error:
                 bad.append(("exposed-member-refused", "request %s %r names only exposed public members but was refused (%s)" % (kind, names, o["exc"]), sub([r])))
-        if exp_ok and budget and not (o["reply"] == "error" and not r["oneway"]):
+        if exp_ok and budget and not (o["reply"] == "error" and not r["oneway"]) and not may_error:
             bad.append(("exposed-member-not-run", "request %s %r: exposed member did not run" % (kind, names), sub([r])))
         # (3) nothing else happens to the object
         if o["state_changed"]:
             bad.append(("object-state-changed", "request %s %r changed the attributes of the object or its classes" % (kind, names), sub([r])))
         if o.get("extra_reply_bytes"):
             bad.append(("more-than-one-reply", "request %s %r produced more than one reply" % (kind, names), sub([r])))
-        if kind != "batch" and isinstance(names[0], str):
+        if kind != "batch" and isinstance(names[0], str) and not o["eff"]["missing"]:
             ran = any(mem[e[0]]["name"] == names[0] and e[1] in (ACC_OF_KIND[kind], "hcall") for e in log) and o["reply"] in ("result", "none")
             per_name.setdefault(names[0], {}).setdefault(kind, []).append((ran, r))
     # (4) advertised == served, from the observations themselves
@@ -373,15 +379,26 @@ ACC = {"call": "ACall", "get": "AGet", "set": "ASet", "hcall": "AHelper", "hook"
 REP = {"result": "RepResult", "error": "RepError", "none": "RepNone"}
 
 
+def c_val(b):
+    return "ATruthy" if b else "AFalsy"
+
+
+def c_request(r, o):
+    """the request as it reached the handler (o["eff"]: effective names, missing / surplus / keyword arguments)"""
+    eff = o["eff"]
+    return "{| r_kind := %s; r_oneway := %s; r_names := %s; r_missing := %s; r_surplus := %s; r_kwargs := %s |}" % (
+        RK[r["kind"]], cbool(r["oneway"]), clist([c_name(n) for n in eff["names"]]), cbool(eff["missing"]),
+        clist([c_val(b) for b in eff["surplus"]]), clist(["(%s, %s)" % (ctext(k), c_val(b)) for k, b in eff["kwargs"]]))
+
+
 def c_req(r, o):
-    return "({| r_kind := %s; r_oneway := %s; r_names := %s |}, {| o_reply := %s; o_log := %s |})" % (
-        RK[r["kind"]], cbool(r["oneway"]), clist([c_name(n) for n in r["names"]]), REP[o["reply"]],
-        clist(["(%s, %s)" % (cnat(e[0]), ACC[e[1]]) for e in o["log"]]))
+    return "(%s, {| o_reply := %s; o_log := %s |})" % (
+        c_request(r, o), REP[o["reply"]], clist(["(%s, %s)" % (cnat(e[0]), ACC[e[1]]) for e in o["log"]]))
 
 
 def c_quirks(q):
     return ("{| q_call_runs_getter := %s; q_attr_private_unchecked := %s; q_helper_served := %s; q_hook_getattribute := %s; "
-            "q_hook_getattr := %s |}") % tuple(cbool(x) for x in q)
+            "q_hook_getattr := %s; q_get_form := %s; q_set_form := %s |}") % (tuple(cbool(x) for x in q[:5]) + (q[5], q[6]))
 
 
 def c_history(case, obs, q):
@@ -393,9 +410,8 @@ def c_history(case, obs, q):
                                              clist([ctext(x) for x in md["oneway"]]), clist([ctext(x) for x in md["attrs"]])))
         elif o["wire"] == "ok":
             r = op["req"]
-            ops.append("HReq %s {| r_kind := %s; r_oneway := %s; r_names := %s |} {| o_reply := %s; o_log := %s |}" % (
-                cnat(op["obj"]), RK[r["kind"]], cbool(r["oneway"]), clist([c_name(n) for n in r["names"]]), REP[o["reply"]],
-                clist(["(%s, %s)" % (cnat(e[0]), ACC[e[1]]) for e in o["log"]])))
+            ops.append("HReq %s %s {| o_reply := %s; o_log := %s |}" % (
+                cnat(op["obj"]), c_request(r, o), REP[o["reply"]], clist(["(%s, %s)" % (cnat(e[0]), ACC[e[1]]) for e in o["log"]])))
     return "HC {| h_quirks := %s; h_classes := %s; h_objects := %s; h_ops := %s |}" % (
         c_quirks(q), clist([c_shape(sh) for sh in case["shapes"]]), clist([cnat(i) for i in case["objects"]]), clist(ops))
 
@@ -516,8 +532,43 @@ def gen_history(rng, reserved):
             other = [m["name"] for s2 in shapes for m in s2["members"]]
             n = rng.choice(pool * 3 + other + ["nonexistent", "__class__"])
             kind = rng.choice(["call", "call", "batch", "getattr", "setattr"])
-            ops.append({"op": "req", "obj": i, "req": {"kind": kind, "oneway": rng.random() < 0.2, "names": [n]}})
+            rq = {"kind": kind, "oneway": rng.random() < 0.2, "names": [n]}
+            ops.append({"op": "req", "obj": i, "req": vary_shape(rng, rq) if rng.random() < 0.3 else rq})
     return {"kind": "history", "shapes": shapes, "objects": objects, "ops": ops, "ser": "serpent"}
+
+
+FALSY = ["false", "zero", "none", "empty", "emptylist"]
+TRUTHY = ["true", "one", "str", "list"]
+KWARGS = [{"only_exposed": "false"}, {"only_exposed": "zero"}, {"only_exposed": "none"}, {"only_exposed": "true"}, {"x": "one"},
+          {"value": "one"}, {"only_exposed": "false", "x": "zero"}]
+
+
+def vary_shape(rng, r):
+    """vary the SHAPE of a request, not its name: surplus positional arguments, keyword arguments, too few arguments,
+    something that is not an argument tuple"""
+    r = dict(r)
+    attr = r["kind"] in ("getattr", "setattr")
+    c = rng.random()
+    if c < 0.45:
+        r["extra"] = [rng.choice(FALSY + FALSY + TRUTHY) for _ in range(rng.choice([1, 1, 1, 2, 3]))]
+    elif c < 0.65:
+        r["kwargs"] = rng.choice(KWARGS)
+    elif c < 0.75:
+        r["extra"] = [rng.choice(FALSY + TRUTHY)]
+        r["kwargs"] = rng.choice(KWARGS)
+    elif attr and c < 0.88:
+        r["nargs"] = 0 if r["kind"] == "getattr" else rng.choice([0, 1])
+        if rng.random() < 0.3:
+            r["extra"] = [rng.choice(FALSY)]
+    elif attr:
+        r["vform"] = rng.choice(["str", "none", "int", "list"])
+    elif r["kind"] == "batch" and r["names"]:
+        names = list(r["names"])
+        names.insert(rng.randrange(len(names) + 1), {"ns": "baditem"})
+        r["names"] = names
+    else:
+        r["extra"] = [rng.choice(FALSY)] * 4
+    return r
 
 
 def gen_requests(rng, shape, ser, reserved, volume):
@@ -555,7 +606,10 @@ def gen_requests(rng, shape, ser, reserved, volume):
         k = rng.choice([0, 2, 3, 4])
         pool = good * 3 + strs if good else strs
         reqs.append({"kind": "batch", "oneway": rng.random() < 0.25, "names": [rng.choice(pool) for _ in range(k)] if pool else []})
-    return reqs
+    # the same names again with another request shape; member names get the most attention
+    mset = set(m["name"] for m in shape["members"])
+    varied = [vary_shape(rng, r) for r in reqs if rng.random() < (0.6 if r["names"] and isinstance(r["names"][0], str) and r["names"][0] in mset else 0.15)]
+    return reqs + varied
 
 
 def witness_cases():
@@ -580,12 +634,52 @@ def witness_cases():
     return w1, w2, w3, w5, w4
 
 
+def form_probes():
+    """seeded change C02_6: does a surplus positional / a keyword argument of an attribute request reach only_exposed?"""
+    w1 = witness_cases()[0]
+    out = {}
+    for kind in ("getattr", "setattr"):
+        out[kind] = (dict(w1, reqs=[{"kind": kind, "oneway": False, "names": ["secret"], "extra": ["false"]}]),
+                     dict(w1, reqs=[{"kind": kind, "oneway": False, "names": ["secret"], "kwargs": {"only_exposed": "false"}}]),
+                     # an EXPOSED property asked for with a truthy surplus argument: refused only by an argument-count check
+                     dict(w1, shape=dict(w1["shape"], sub_exposed=True), reqs=[{"kind": kind, "oneway": False, "names": ["secret"], "extra": ["true"]}]))
+    return out
+
+
+def shape_matrix():
+    """every argument-tuple shape against unexposed / exposed / private-named / getter-only properties and methods"""
+    M = lambda name, kind, **k: dict({"name": name, "kind": kind, "in": "sub", "mark": False, "fname": name, "oneway": False,
+                                      "get": True, "set": True, "hexp": False}, **k)
+    mem = [M("secret", "prop"), M("ep", "prop", mark=True), M("_hp", "prop", mark=True, fname="visible"), M("ro", "prop", set=False),
+           M("inh", "prop", **{"in": "base"}), M("ok", "method", mark=True), M("no", "method"), M("ia", "iattr"), M("ca", "cattr")]
+    variants = [{"extra": [t]} for t in FALSY + TRUTHY] + [{"extra": ["false", "false"]}, {"extra": ["false", "true", "one"]},
+                {"extra": ["zero"] * 4}] + [{"kwargs": k} for k in KWARGS] + [{"extra": ["false"], "kwargs": {"only_exposed": "false"}}]
+    out = []
+    for be, se in ((False, False), (True, False)):
+        reqs = []
+        for n in [m["name"] for m in mem] + ["missing", {"ns": "int"}]:
+            for kind in ("getattr", "setattr", "call", "batch"):
+                for i, v in enumerate(variants):
+                    reqs.append(dict({"kind": kind, "oneway": i % 3 == 0, "names": [n]}, **v))
+                if kind in ("getattr", "setattr"):
+                    for na in ((0,) if kind == "getattr" else (0, 1)):
+                        reqs.append({"kind": kind, "oneway": False, "names": [n], "nargs": na})
+                        reqs.append({"kind": kind, "oneway": True, "names": [n], "nargs": na, "extra": ["false"]})
+                    for vf in ("str", "none", "int", "list"):
+                        reqs.append({"kind": kind, "oneway": False, "names": [n], "vform": vf})
+        reqs.append({"kind": "batch", "oneway": False, "names": ["ok", {"ns": "baditem"}, "ok"]})
+        reqs.append({"kind": "batch", "oneway": False, "names": [{"ns": "baditem"}]})
+        for k in range(0, len(reqs), 120):      # several moderate cases rather than one huge one (they are evaluated in parallel shards)
+            out.append({"kind": "shape", "ser": "serpent", "shape": {"base_exposed": be, "sub_exposed": se, "members": mem}, "reqs": reqs[k:k + 120]})
+    return out
+
+
 def targeted(reserved):
     """fixed cases: class-level exposure of a class that defines reserved names, every reserved name requested
     in every kind; private names bound to marked functions; inheritance; shadowing"""
     M = lambda name, kind, **k: dict({"name": name, "kind": kind, "in": "sub", "mark": False, "fname": name, "oneway": False,
                                       "get": True, "set": True, "hexp": False}, **k)
-    out = list(witness_cases())
+    out = list(witness_cases()) + [c for cs in form_probes().values() for c in cs] + shape_matrix()
     allkinds = lambda names, ow=False: [{"kind": k, "oneway": ow, "names": [n]} for n in names for k in ("call", "batch", "getattr", "setattr")]
     hooks = [M(n, "method", **{"in": "base" if i % 2 else "sub"}) for i, n in enumerate(SAFE_HOOKS)]
     hooks += [M("__getattr__", "hook", **{"in": "base"}), M("__getattribute__", "hook")]
@@ -694,10 +788,14 @@ def probe_quirks(rig):
     def seen(w, acc):
         return any(e[1] == acc for e in run_impl(rig, w)["reqs"][0]["log"])
     w1, w2, w3, w5, w4 = witness_cases()
-    return (seen(w1, "get"), seen(w2, "get"), seen(w3, "hcall"), seen(w5, "hook"), seen(w4, "hook"))
+    forms = []
+    for kind, acc in (("getattr", "get"), ("setattr", "set")):
+        pos, kw, strict = form_probes()[kind]
+        forms.append("AFStarKw" if seen(kw, acc) else "AFStar" if seen(pos, acc) else "AFIndexed" if seen(strict, acc) else "AFStrict")
+    return (seen(w1, "get"), seen(w2, "get"), seen(w3, "hcall"), seen(w5, "hook"), seen(w4, "hook"), forms[0], forms[1])
 
 
-QUIRK_NAMES = ("q_call_runs_getter", "q_attr_private_unchecked", "q_helper_served", "q_hook_getattribute", "q_hook_getattr")
+QUIRK_NAMES = ("q_call_runs_getter", "q_attr_private_unchecked", "q_helper_served", "q_hook_getattribute", "q_hook_getattr", "q_get_form", "q_set_form")
 
 
 def reserved_of(ctx):
@@ -760,7 +858,7 @@ def execute(ctx, rig, cases, model_ok, res, q, localise=True):
         lits.append(c_case(case, obs, q))
         kept.append((case, obs))
     if model_ok and lits:
-        bad = vlib.run_cases(ctx, "c", IMPORTS, "case", "check_case", lits, shard=60)
+        bad = vlib.run_cases(ctx, "c", IMPORTS, "case", "check_case", lits, shard=40)
         for idx in bad:
             case, obs = kept[idx]
             if case["kind"] != "shape" or not localise or len(res.mismatches) >= 6:
